@@ -129,31 +129,31 @@ func (t *Trigger) Fired() bool { return t.fired }
 
 // Sim is one simulated run (one synctest bubble).
 type Sim struct {
-	mu       sync.Mutex
-	cur      *G
-	gs       []*G
-	mask     []bool
-	forceOn  []string // site-name substrings whose yields are always enabled
-	Ch       *Choices
-	free     atomic.Bool
-	parkSig  chan struct{}
-	Steps    int
-	StepCap  int
-	Strategy Strategy
-	Events   []Event
-	Chunks   []Chunk
-	Log      []string // scheduling log: "<step> <gid> <site>"
-	KeepLog  bool
-	Hazards  int
-	Triggers []*Trigger
-	OnWrite  func(g *G, stream string, p []byte)
-	ParkMode string // "line" (default), "chunk", "none"
-	Stats    map[string]int
-	lastPick *G
-	hash     uint64
+	mu          sync.Mutex
+	cur         *G
+	gs          []*G
+	mask        []bool
+	forceOn     []string // site-name substrings whose yields are always enabled
+	Ch          *Choices
+	free        atomic.Bool
+	parkSig     chan struct{}
+	Steps       int
+	StepCap     int
+	Strategy    Strategy
+	Events      []Event
+	Chunks      []Chunk
+	Log         []string // scheduling log: "<step> <gid> <site>"
+	KeepLog     bool
+	Hazards     int
+	Triggers    []*Trigger
+	OnWrite     func(g *G, stream string, p []byte)
+	ParkMode    string // "line" (default), "chunk", "none"
+	Stats       map[string]int
+	lastPick    *G
+	hash        uint64
 	unlockEpoch int
 	deadlocked  bool
-	Strip    string // run directory: replaced by $D before output is digested, so digests do not depend on temp names
+	Strip       string // run directory: replaced by $D before output is digested, so digests do not depend on temp names
 }
 
 // S is the simulation in progress in this process (at most one). nil = instrumentation is inert.
@@ -296,6 +296,20 @@ func (s *Sim) park(g *G, site int) {
 	default:
 	}
 	<-g.wake
+}
+
+// Knobs holds per-run overrides of integer constants of the system under test (set by a harness before the run
+// starts, read-only while it runs). KnobInt is what the instrumenter puts in place of a use of such a constant.
+var Knobs map[string]int
+
+func KnobInt(name string, def int) int {
+	if S == nil {
+		return def
+	}
+	if v, ok := Knobs[name]; ok {
+		return v
+	}
+	return def
 }
 
 // Yield is an optional scheduling point inserted before a statement.
